@@ -7,6 +7,7 @@ package main
 // for matrix queries, QueryRange/QueryInstant build a context per request): the observation is recorded, not judged.
 
 import (
+	"math/rand"
 	"time"
 
 	logql_transpiler_v2 "github.com/metrico/qryn/reader/logql/logql_transpiler_v2"
@@ -55,4 +56,141 @@ func fixPeriod() FixPeriodObs {
 		drain(p2.Process(mk(i), nil))
 	}
 	return FixPeriodObs{RangeNs: d.Nanoseconds(), Window: [2]int64{from, to}, OneContext: one.seen, Fresh: fresh.seen}
+}
+
+// ---- generated cases for the in-Coq comparison with model/ReplanFix.v (round 8) ----
+// One real FixPeriodPlanner object per case over a window recorder: K executions under ONE context object, then the same object
+// again under a NEW context per execution. Per execution: the window Main saw (nil: Main not called = refused) and the From/To
+// of the caller's context after the call.
+
+type FixExec struct {
+	Seen  *[2]int64 `json:"seen"`
+	After [2]int64  `json:"after"`
+}
+
+type FixCase struct {
+	Id        int64      `json:"id"`
+	RangeNs   int64      `json:"range_ns"`
+	Ctx       [3]int64   `json:"ctx"` // from, to, step (ns)
+	K         int        `json:"k"`
+	One       []FixExec  `json:"one"`
+	FreshCtxs [][3]int64 `json:"fresh_ctxs"`
+	Fresh     []FixExec  `json:"fresh"`
+	Class     []string   `json:"class"`
+}
+
+func fixExec(p *logql_transpiler_v2.FixPeriodPlanner, rec *windowRecorder, pc *shared.PlannerContext) FixExec {
+	n := len(rec.seen)
+	ch, err := p.Process(pc, nil)
+	if err == nil {
+		for range ch {
+		}
+	}
+	e := FixExec{After: [2]int64{pc.From.UnixNano(), pc.To.UnixNano()}}
+	if len(rec.seen) > n {
+		w := rec.seen[len(rec.seen)-1]
+		e.Seen = &w
+	}
+	if (err != nil) != (e.Seen == nil) {
+		panic("FixPeriodPlanner: error and Main call disagree")
+	}
+	return e
+}
+
+func fixCases(seed int64, n int) []FixCase {
+	rnd := rand.New(rand.NewSource(seed*31 + 8))
+	sec := int64(time.Second)
+	pick := func(xs ...int64) int64 { return xs[rnd.Intn(len(xs))] }
+	var out []FixCase
+	for i := 0; i < n; i++ {
+		c := FixCase{Id: int64(i)}
+		d := pick(sec, 7*sec, 15*sec, 60*sec, 300*sec, 3600*sec, 86400*sec, 1+rnd.Int63n(1e12), 1+rnd.Int63n(1e4))
+		step := pick(sec, 15*sec, 60*sec, 1+rnd.Int63n(1e11), sec, 15*sec)
+		var from int64
+		switch rnd.Intn(8) {
+		case 0:
+			from = rnd.Int63n(1e12)
+			c.Class = append(c.Class, "near-epoch")
+		case 1:
+			from = -rnd.Int63n(1e15)
+			c.Class = append(c.Class, "before-1970")
+		case 2:
+			from = (1700000000*sec + rnd.Int63n(1e15)) / d * d
+			c.Class = append(c.Class, "from-on-grid")
+		default:
+			from = 1700000000*sec + rnd.Int63n(1e15) - 5e14
+		}
+		var span int64
+		switch rnd.Intn(10) {
+		case 0:
+			span = -1 - rnd.Int63n(3600*sec)
+			c.Class = append(c.Class, "to-before-from")
+		case 1:
+			span = 0
+			c.Class = append(c.Class, "empty-window")
+		case 2:
+			span = 11000*step + rnd.Int63n(2*step+1) - step // around the 11000 points guard
+			c.Class = append(c.Class, "at-guard")
+		case 3:
+			span = 11000*step - rnd.Int63n(3*d+1) // accepted first, refused after the drift
+			if span < 0 {
+				span = 0
+			}
+			c.Class = append(c.Class, "drifts-into-guard")
+		case 4:
+			span = rnd.Int63n(1e17)
+		default:
+			span = rnd.Int63n(11000*step + 1)
+		}
+		switch rnd.Intn(12) {
+		case 0:
+			step = 0
+			c.Class = append(c.Class, "step-0")
+		case 1:
+			step = -step
+			c.Class = append(c.Class, "step-negative")
+		}
+		to := from + span
+		if (to/d*d+d)%d != 0 || from/d*d > from && from >= 0 {
+			panic("generator")
+		}
+		c.RangeNs, c.Ctx, c.K = d, [3]int64{from, to, step}, 1+rnd.Intn(4)
+		mk := func(x [3]int64) *shared.PlannerContext {
+			return &shared.PlannerContext{From: time.Unix(0, x[0]), To: time.Unix(0, x[1]), Step: time.Duration(x[2])}
+		}
+		rec := &windowRecorder{}
+		p := &logql_transpiler_v2.FixPeriodPlanner{Main: rec, Duration: time.Duration(d)}
+		pc := mk(c.Ctx)
+		for j := 0; j < c.K; j++ {
+			c.One = append(c.One, fixExec(p, rec, pc))
+		}
+		// the same object (already executed K times) under a new context per execution
+		for j, m := 0, 1+rnd.Intn(3); j < m; j++ {
+			sh := int64(j) * pick(sec, 3600*sec, d, d/2+1)
+			x := [3]int64{from + sh, to + sh, c.Ctx[2]}
+			if j > 0 && rnd.Intn(4) == 0 {
+				x = c.Ctx // the very window again
+			}
+			c.FreshCtxs = append(c.FreshCtxs, x)
+			c.Fresh = append(c.Fresh, fixExec(p, rec, mk(x)))
+		}
+		accepted := 0
+		for _, e := range c.One {
+			if e.Seen != nil {
+				accepted++
+			}
+		}
+		switch {
+		case accepted == 0:
+			c.Class = append(c.Class, "refused")
+		case accepted < c.K:
+			c.Class = append(c.Class, "accepted-then-refused")
+		case c.K > 1:
+			c.Class = append(c.Class, "accepted-again")
+		default:
+			c.Class = append(c.Class, "accepted-once")
+		}
+		out = append(out, c)
+	}
+	return out
 }
